@@ -35,11 +35,12 @@ _J = st.one_of(st.integers(-6, 6), st.integers(-6, 6), st.sampled_from([0, 0, 1,
 
 
 @st.composite
-def grid_paths(draw, dtype, min_T=1, max_T=8, max_N=5, unit_centre=False, free=False):
+def grid_paths(draw, dtype, min_T=1, max_T=8, max_N=5, unit_centre=False, free=False, rates=False):
     """-> dict(spot [N][T], strike, barrier_pool): positive prices K0 + j*h on a grid that is exact in ``dtype``
     (float64 additionally: decimal centres K0*(1+j/100)); the strike is a grid point, mostly the centre."""
     N, T = draw(st.integers(1, max_N)), draw(st.integers(min_T, max_T))
-    modes = ["dyadic", "dyadic", "dyadic"] + (["decimal"] if dtype == "float64" else []) + (["free"] if free else [])
+    modes = ["dyadic", "dyadic", "dyadic"] + (["decimal"] if dtype == "float64" else []) + (["free"] if free else []) + \
+        (["rates"] if rates and not unit_centre else [])
     mode = draw(st.sampled_from(modes))
     js = [[draw(_J) for _ in range(T)] for _ in range(N)]
     jk = draw(st.sampled_from([0, 0, 0, 0, 1, -1, 2, -2]))
@@ -48,6 +49,11 @@ def grid_paths(draw, dtype, min_T=1, max_T=8, max_N=5, unit_centre=False, free=F
         k0 = 1.0 if unit_centre else draw(st.integers(16, 128)) / 32.0
         h = 2.0 ** -draw(st.sampled_from([4, 4, 6, 10, 16]))
         val = lambda j: k0 + j * h  # exact: <= 19 significant bits
+    elif mode == "rates":
+        # an interest-rate underlier (VasicekRate): levels around zero, negative values and non-positive strikes
+        k0 = draw(st.sampled_from([0.0, 0.0, -0.25, 0.03125, -0.015625]))
+        h = 2.0 ** -draw(st.sampled_from([4, 6, 10]))
+        val = lambda j: k0 + j * h
     elif mode == "decimal":
         k0 = 1.0 if unit_centre else draw(st.sampled_from([1.0, 1.1, 0.9, 1.03, 100.0, 2.5, 0.35]))
         val = lambda j: k0 if j == 0 else k0 * (1.0 + j / 100.0)
@@ -96,8 +102,8 @@ def functional_case(draw):
 def options_case(draw):
     dtype = draw(st.sampled_from(["float32", "float64", "float64"]))
     defaults = draw(st.integers(0, 4)) == 0
-    g = draw(grid_paths(dtype, unit_centre=defaults))
-    return {"dtype": dtype, "spot": g["spot"], "strike": 1.0 if defaults else g["strike"], "defaults": defaults,
+    g = draw(grid_paths(dtype, unit_centre=defaults, rates=True))
+    return {"dtype": dtype, "spot": g["spot"], "strike": 1.0 if defaults else g["strike"], "defaults": defaults, "mode": g["mode"],
             "call": True if defaults else draw(st.booleans()),
             "type": draw(st.sampled_from(OPTION_FNS)), "clauses": draw(clause_list(g)),
             "dt": draw(st.sampled_from(DT_CHOICES))}
